@@ -98,6 +98,13 @@ Fixpoint map_values (env : enum_env) (names : list str) : outcome (list Z) :=
               end
   end.
 
+(* a key type marked as the primary key of its entity *)
+Definition is_primary_ty (t : fty) : bool :=
+  match t with
+  | TKey _ (Some e) _ => match ek_type e with Some (EPrimary true) => true | _ => false end
+  | _ => false
+  end.
+
 (* ---- buildField ----------------------------------------------------------- *)
 Record fieldw := FW {
   fw_kind : pkind;
@@ -241,7 +248,8 @@ Definition write_prop (env : enum_env) (idx : N) (d : prop) : outcome fout :=
        if p_opt d && required then Err "cannot be both required and optional"
        else Ok (FO (p_name d) (idx + 1)%N (fw_kind w)
                    (match p_ty d with PSingle _ => false | _ => true end)
-                   (p_opt d)
+                   (* HasOptionalKeyword of the linked field: never true for a repeated field *)
+                   (match p_ty d with PSingle _ => p_opt d | _ => false end)
                    (field_presence (p_ty d) (p_opt d) (fw_kind w))
                    (if required then set_required (fw_val w) else fw_val w)
                    (fw_ext w) (fw_list w) (fw_key w) (p_desc d))).
